@@ -72,6 +72,12 @@ CLAIMS = {
         note=TB + 'The frame base is a free ghost parameter (its definition - call / callMethod / runConstructorChain push exactly one scope - is not verified). NOT covered: the part of lookup/assign after the walk (fields, statics, class names), '
              'the analyser\'s resolution order, and the renaming corollary (a written argument over these contracts).',
         ref='DESIGN.md §4 C09'),
+    'C10': dict(
+        text='Kernel only (function half): proof that after the pre-declaration loop of SemanticAnalyser::analyse every top-level function (ghost index) is declared AND has its signature on record - parameter count and return type - '
+             'or the loop stopped with one Semantic error for a duplicate name; loop invariants on the outer loop and the parameter loop. With every signature on record before any body is analysed, no later check can depend on where a declaration stands.',
+        note=TB + 'The analyser tables are ghost state observed at one arbitrary name; typeFromAst is uninterpreted. NOT covered: that the call-site checks read only that table; the class half of the property (a derived class declared before its base '
+             'gets an empty copied layout in buildClassTable - a confirmed defect, design_probes/repro/C10_derived_declared_before_base.bloch - lives in unordered_map / shared_ptr code outside the lowering); module merge order.',
+        ref='DESIGN.md §4 C10'),
     'C12': dict(
         text='Kernel only: (a) every lowered unit (SIM, LEX, UPD, QBK, ARITH, PTAB) carries CBMC bounds / pointer / division / shift obligations on every harness: for any input satisfying the stated invariants those functions never index out of range; '
              '(b) the arithmetic branches of eval can only end in a value or a located Runtime error: explicit no-trap obligations on every signed / and % (INT_MIN / -1, x / 0), no raw C++ exception from literal conversion '
